@@ -891,8 +891,9 @@ def enum_values(prefix):
 
 
 def parse_known_c06(path=None):
-    """lines  `property=C06 key=<constraints> text`  ->  list of dict(cipher=[..], klen=[..]|None, hash=[..]|None, line)
-    constraints: comma separated  cipher=A|B  klen=24|32  hash=X|Y  hash=!X  (names without IMB_CIPHER_/IMB_AUTH_, or numbers)"""
+    """lines  `property=C06 key=<constraints> text`  ->  list of dict(cipher, klen, dir, hash: list | None = any, line)
+    constraints: comma separated  cipher=A|B  klen=24|32  dir=enc|dec  hash=X|Y  hash=!X|Y
+    (names without IMB_CIPHER_/IMB_AUTH_, or numbers)"""
     path = path or KNOWN_FILE
     out = []
     if not os.path.exists(path):
@@ -909,7 +910,7 @@ def parse_known_c06(path=None):
             raise T1bError("known_findings.txt: C06 line without key=: " + line)
         if C is None:
             C, H = enum_values("IMB_CIPHER_"), enum_values("IMB_AUTH_")
-        ent = dict(cipher=None, klen=None, hash=None, line=line, key=m.group(1))
+        ent = dict(cipher=None, klen=None, dir=None, hash=None, line=line, key=m.group(1))
         for cons in m.group(1).split(","):
             if "=" not in cons:
                 raise T1bError("known_findings.txt: bad constraint %r in %s" % (cons, line))
@@ -920,13 +921,15 @@ def parse_known_c06(path=None):
                 ent["cipher"] = [int(x) if x.isdigit() else C[x] for x in vals]
             elif a == "klen":
                 ent["klen"] = [int(x) for x in vals]
+            elif a == "dir":
+                ent["dir"] = [{"enc": 1, "dec": 2}.get(x, None) or int(x) for x in vals]
             elif a == "hash":
                 hv = [int(x) if x.isdigit() else H[x] for x in vals]
                 ent["hash"] = [h for h in range(1, H["NUM"]) if h not in hv] if neg else hv
             else:
-                raise T1bError("known_findings.txt: unknown attribute %r (cipher, klen, hash) in %s" % (a, line))
-        if ent["cipher"] is None:
-            raise T1bError("known_findings.txt: C06 key must constrain cipher=: " + line)
+                raise T1bError("known_findings.txt: unknown attribute %r (cipher, klen, dir, hash) in %s" % (a, line))
+        if ent["cipher"] is None and ent["hash"] is None:
+            raise T1bError("known_findings.txt: C06 key must constrain cipher= or hash=: " + line)
         out.append(ent)
     return out
 
@@ -935,19 +938,20 @@ def generate_known():
     ents = parse_known_c06()
     trip = []
     for e in ents:
-        for c in e["cipher"]:
+        for c in (e["cipher"] or [0]):
             for k in (e["klen"] or [0]):
-                for h in (e["hash"] or [0]):
-                    trip.append((c, k, h))
+                for d in (e["dir"] or [0]):
+                    for h in (e["hash"] or [0]):
+                        trip.append((c, k, d, h))
     trip = sorted(set(trip))
     L = ["(* GENERATED by translators/t1b_tables.py from known_findings.txt (lines `property=C06 key=...`) -- DO NOT EDIT.",
-         "   Acknowledged, unrepaired C06 findings as (cipher mode, key length or 0 = any, hash alg or 0 = any).",
+         "   Acknowledged, unrepaired C06 findings as (cipher mode, key length, direction, hash alg), 0 = any.",
          "   The C06 theorems about the tables and the validation rules are stated for every cell NOT listed here. *)",
          "From Coq Require Import NArith List.", "Import ListNotations.", "Local Open Scope N_scope.", ""]
     for e in ents:
         L.append("(* %s *)" % e["line"].replace("(*", "( *").replace("*)", "* )")[:400])
-    L.append("Definition known_c06 : list (N * N * N) := %s." %
-             coq_list(["(%d, %d, %d)" % t for t in trip], 8))
+    L.append("Definition known_c06 : list (N * N * N * N) := %s." %
+             coq_list(["(%d, %d, %d, %d)" % t for t in trip], 6))
     L.append("")
     return "\n".join(L), ents
 
